@@ -395,7 +395,7 @@ def run(ctx, args):
         case = rep.get("case")
         if case:
             check_cases(ctx, [{k: case.get(k) for k in ("route", "mapping", "src", "tree")}])
-        return ctx.finish("replay of " + args.replay, replay_open=replay_open)
+        return ctx.finish("replay of " + args.replay, level="exploration", replay_open=replay_open, explanation=EXPLANATION)
     quick = ctx.tier == "quick"
     cases = fixed_cases()
     n = 420 if quick else 9000
@@ -416,7 +416,14 @@ def run(ctx, args):
              "Every output is read by Document(), lxml and the Coq reference reader; two mutants per output (truncation, "
              "swapped quote, stray < & >, deleted/duplicated character, inserted white space / CDATA / references) are read by "
              "the Coq reader and lxml. Non-trivial = special characters present, >= 2 namespaces, or a non-empty mapping.",
-        replay_open=replay_open)
+        level="exploration", replay_open=replay_open, explanation=EXPLANATION)
+
+
+EXPLANATION = ("Level exploration: the general round-trip theorem is not closed. Proved in Coq (Props/C02.v, rebuilt by this "
+               "run): unescape/escape over the generated tables, the lexer round trip for any well-formed token stream, the "
+               "tree-building round trip, their composition for documents without declarations, and (Props/C13.v) the "
+               "prefix-table theorem. Searched: serialize -> {Document(), lxml, Coq reference reader} == original content "
+               "model (presented names, merged text), plus an lxml-level comparison of stored attribute names.")
 
 
 if __name__ == "__main__":
